@@ -385,7 +385,11 @@ PROPS["C15"] = {
              "scripted dialer whose peers refuse every Send; the application closes at once, after 50-1200 ms, or after its Write has "
              "reported the broken data path, once or twice. Oracle: Close returns within 15 s, the collection is melted, every peer "
              "obtained (also one delivered by a rendezvous in flight) is closed within 3 s, no rendezvous starts afterwards (observed "
-             "for a full ReconnectTimeout in some cases). Non-trivial = Close after a write error or a double Close. c15_binary (thorough): the client binary as a managed "
+             "for a full ReconnectTimeout in some cases). Non-trivial = Close after a write error or a double Close. c15_config: "
+             "NewSnowflakeClient with generated configurations (broker URL dead / empty / malformed, AMP cache, front, ICE lists, max -1..3, "
+             "uTLS ids, bridge fingerprints) returns exactly one of transport and error and never panics; the broker channel it built takes a "
+             "SetNATType and then one real rendezvous attempt against the unreachable broker, which must come back with an error within 60 s. "
+             "Non-trivial = a NAT type was set or a cache/front is configured. c15_binary (thorough): the client binary as a managed "
              "transport with generated -ice values and SOCKS ice=/max= arguments against a broker that refuses in five ways: alive after "
              "2-24 s of failing attempts, no broker poll in the 23 s after the SOCKS connection closed, exit within 15 s of SIGTERM."),
     "assumptions": ["the schedule is owned through explicit gates in the scripted dialer, not through a clock (sync.Mutex waits freeze a synctest bubble and Peers holds a mutex across the rendezvous)",
@@ -393,6 +397,7 @@ PROPS["C15"] = {
     "units": [U("c15_peers", "inpkg", "client/lib", "^TestVerifC15Peers$", (400, 5000), timeout=(400, 3000), wedge_is_violation=True),
               U("c15_rendezvous", "inpkg", "client/lib", "^TestVerifC15Rendezvous$", (12, 120), timeout=(400, 3000)),
               U("c15_teardown", "inpkg", "client/lib", "^TestVerifC15Teardown$", (60, 600), shards=(4, 8), timeout=(400, 3000)),
+              U("c15_config", "inpkg", "client/lib", "^TestVerifC15Config$", (60, 600), shards=(2, 4), timeout=(300, 3000)),
               U("c15_conn", "inpkg", "client/lib", "^TestVerifC15Conn$", (30, 300), shards=(4, 8), timeout=(400, 3000)),
               U("c15_binary", "ext", "c15bin", "^TestVerifC15Binary$", (0, 8), shards=(0, 8), timeout=(400, 1200), tiers=["thorough"])],
 }
